@@ -89,6 +89,7 @@ TrFitStart ==
   /\ Consume
 TrDeriv == Is("MDeriv") /\ Deriv(Ev.k, Ev.ok) /\ Consume
 TrTrialSet == Is("MSet") /\ TrialSet(Ev.aid, Ev.ok) /\ Consume
+TrTrialSetAfterFailedJac == Is("MSet") /\ (Strict \cap {"C02", "C03", "C04", "C05", "C09", "C10"} = {}) /\ TrialSetAfterFailedJac(Ev.aid, Ev.ok) /\ Consume
 TrTrialSetMemo == Is("MSet") /\ MemoOk /\ TrialSetMemo(Ev.aid, Ev.ok) /\ Consume
 TrEvalAfterFailedSet == Is("MEval") /\ EvalAfterFailedSet(Ev.ok) /\ Consume
 TrTrialEval == Is("MEval") /\ (\E dec \in Decisions, keep \in BOOLEAN : (keep => NoC09) /\ TrialEval(Ev.ok, dec, keep)) /\ Consume
@@ -147,7 +148,7 @@ Next == \/ (TrBuildStart /\ jset' = {})
         \/ ((TrDeriv \/ TrCJacDeriv) /\ jset' = IF JacDone THEN jset \cup {tgt} ELSE jset)
         \/ (/\ \/ TrBuildSet \/ TrBuildEval \/ TrBuildEnd
                \/ TrCSet \/ TrCSetEval \/ TrCSetEnd \/ TrCJacEnd
-               \/ TrFitStart \/ TrTrialSet \/ TrTrialSetMemo \/ TrEvalAfterFailedSet \/ TrTrialEval
+               \/ TrFitStart \/ TrTrialSet \/ TrTrialSetMemo \/ TrTrialSetAfterFailedJac \/ TrEvalAfterFailedSet \/ TrTrialEval
                \/ TrResetSet \/ TrResetEval \/ TrFitEnd
                \/ TrStaleBuildEval \/ TrStaleCSetEval \/ TrStaleTrialEval
                \/ TrCSetSkip \/ TrTrialSetSkip \/ TrResetSetSkip
